@@ -96,6 +96,7 @@ type Engine struct {
 	// source-level inlining of new helpers (inline.go)
 	Inlined     []string
 	InlineNotes []string
+	Overlay     map[string][]byte // the source files as analysed, where they differ from the files on disk
 	DeadHelpers []string
 }
 
@@ -167,6 +168,7 @@ func Load(dir string) (*Engine, error) {
 	}
 	cur.Inlined = inlined
 	cur.InlineNotes = notes
+	cur.Overlay = overlay
 	cur.hideDeadHelpers()
 	curEngine = cur
 	return cur, nil
